@@ -104,7 +104,7 @@ func (Engine) Generate(r *simcore.RNG, tier string, idx int) *simcore.Plan {
 		if cl == 1 {
 			clw = 1
 		}
-		switch r.Weighted([]int{14, 12, 10, 10, 5, 8, 8, 7 * clw, 4 * clw, 3 * clw, 6, 13, 3, 2, 4, 3, 2}) {
+		switch r.Weighted([]int{14, 12, 10, 10, 5, 8, 8, 7 * clw, 4 * clw, 3 * clw, 6, 13, 3, 2, 4, 3, 2, 2}) {
 		case 0:
 			st.Op = "lock"
 			kind := r.Weighted([]int{70, 0, 4, 6})
@@ -172,12 +172,16 @@ func (Engine) Generate(r *simcore.RNG, tier string, idx int) *simcore.Plan {
 			// governance takes a share denomination off the superfluid asset list, or puts it back
 			st.Op = "govasset"
 			st.A = []int64{r.Range(0, 1)}
+		case 17:
+			// a validator is jailed (fault: downtime) or released again; locks stay delegated to it meanwhile
+			st.Op = "jail"
+			st.A = []int64{r.Range(0, 2)}
 		case 16:
 			// a validator is slashed for misbehaviour (fault): every lock staked or unstaking through it loses the fraction
 			st.Op = "slash"
 			st.A = []int64{r.Range(0, 2), r.Range(0, 3)}
 		}
-		if faults && r.Chance(0.2) && st.Op != "advance" && st.Op != "sweep" && st.Op != "restart" && st.Op != "govasset" && st.Op != "slash" {
+		if faults && r.Chance(0.2) && st.Op != "advance" && st.Op != "sweep" && st.Op != "restart" && st.Op != "govasset" && st.Op != "slash" && st.Op != "jail" {
 			if r.Chance(0.35) {
 				st.F = "abort"
 			} else {
@@ -505,6 +509,42 @@ func (Engine) Execute(run *simcore.Run) {
 		}
 		if st.Op == "slash" {
 			if !w.slash(i, st) {
+				return
+			}
+			continue
+		}
+		if st.Op == "jail" {
+			v := int(st.Arg(0)) % w.vals
+			val, err := n.App.StakingKeeper.GetValidator(n.Ctx, n.ValAddrs[v])
+			if err != nil {
+				run.Event("jail", "skip")
+				continue
+			}
+			cons, _ := val.GetConsAddr()
+			if val.IsJailed() {
+				if err := n.App.StakingKeeper.Unjail(n.Ctx, cons); err != nil {
+					panic(fmt.Sprintf("harness: unjail: %v", err))
+				}
+				run.Probe("validator-unjailed")
+			} else {
+				others := 0
+				for u := 0; u < w.vals; u++ {
+					if o, err := n.App.StakingKeeper.GetValidator(n.Ctx, n.ValAddrs[u]); err == nil && u != v && o.IsBonded() && !o.IsJailed() {
+						others++
+					}
+				}
+				if others == 0 {
+					run.Event("jail", "skip") // the last active validator stays
+					continue
+				}
+				if err := n.App.StakingKeeper.Jail(n.Ctx, cons); err != nil {
+					panic(fmt.Sprintf("harness: jail: %v", err))
+				}
+				run.Fault("validator-jailed")
+			}
+			run.Event("jail", "ok")
+			run.Logf("%d jail validator=%d jailed-before=%v", i, v, val.IsJailed())
+			if !w.checkSupply(n.Ctx, "jail") || !w.oracle("jail") {
 				return
 			}
 			continue
